@@ -232,15 +232,35 @@ def stakeMature (s : State) (t : Nat) : State :=
 
 /-! ## messages -/
 
+/-- which records enter a power sum of the cap (`if oracle.Online { … }` around the accumulation, REGENERATED) -/
+def capCounted (onlyOnline : Bool) (o : Oracle) : Bool := !onlyOnline || o.online
+
+/-- what the cap is measured against: the power of the (online) records summed by the loop of `UpdateProposalOracles` itself
+— not the stored `LastTotalPower` — when the code says so (`capAgainstLoopTotal`) -/
+def capTotal (s : State) : Nat :=
+  if capAgainstLoopTotal then (((Store.vals s.oracles).filter (capCounted capTotalOnlineOnly)).map (power s.p)).sum
+  else s.lastTotalPower
+
+/-- the power the update takes away: (online) records on the old list that the new list drops -/
+def capRemoved (s : State) (list : List Nat) : Nat :=
+  let all := Store.vals s.oracles
+  let dl := if capDeleteOldListOnly then all.filter (fun o => !list.contains o.addr && s.proposal.contains o.addr)
+            else all.filter (fun o => !list.contains o.addr)
+  ((dl.filter (capCounted capDeleteOnlineOnly)).map (power s.p)).sum
+
+/-- `maxChangePowerThreshold` -/
+def capThreshold (s : State) : Nat := powerChangeCap * capTotal s / capDenominator
+
+/-- the refusing `if` of `UpdateProposalOracles`, every part of it REGENERATED (`cap…` of `Gen/C13.lean`) -/
+def capRefuses (s : State) (list : List Nat) : Bool :=
+  capBeforeWrites && ((!capZeroGuard || decide (capRemoved s list > 0)) && evalCmp capCmp (capRemoved s list) (capThreshold s))
+
 /-- `UpdateProposalOracles` -/
 def govUpdate (s : State) (list : List Nat) : State × Res :=
   if list.length > maxOracleSize then (s, .err "size") else
   let all := Store.vals s.oracles
-  let total := ((all.filter (·.online)).map (power s.p)).sum
   let unbondList := all.filter (fun o => !list.contains o.addr && s.proposal.contains o.addr)
-  let delPower := ((unbondList.filter (·.online)).map (power s.p)).sum
-  let maxChange := powerChangeCap * total / 100
-  if delPower > 0 && delPower ≥ maxChange then (s, .err "cap") else
+  if capRefuses s list then (s, .err "cap") else
   let s1 := { s with proposal := list }
   -- `UnbondedOracleFromProposal` for each: undelegate everything (staking state only) …
   let r := unbondList.foldl (fun (acc : Option State) o =>
